@@ -571,6 +571,21 @@ class Exec:
             self.fail(f'{who}: lists {sorted(names)[:8]} (len()={len(obj)}), the model has {sorted(model)[:8]}',
                       {'extra': sorted(set(names) - set(model))[:5], 'missing': sorted(set(model) - set(names))[:5]},
                       key='listing-mismatch')
+        # listing restricted to one extension: exactly the model's files with that extension (documented split of the
+        # 3-part name: explicit extension, otherwise the part after the last dot of the file name)
+        by_ext: Dict[str, List[str]] = {}
+        for name in model:
+            folder, base, ext = self.idents[name]
+            if not ext and '.' in base:
+                ext = base.rsplit('.', 1)[1]
+            by_ext.setdefault(ext, []).append(name)
+        for ext, want_names in by_ext.items():
+            if not ext:
+                continue  # filenames(ext='') means "no filter"
+            got_names = sorted(obj.filenames(ext=ext))
+            self.run.count('ext_listings_compared')
+            if got_names != sorted(want_names):
+                self.fail(f'{who}: filenames(ext={ext!r}) lists {got_names[:6]}, the model has {sorted(want_names)[:6]}', key='listing-mismatch')
         for name, want in model.items():
             try:
                 info = obj[name]
